@@ -17,6 +17,50 @@ import (
 
 type CounterStyle map[string]CounterStyleDescriptors
 
+// extendsChain returns the names of the counter styles whose descriptors
+// complete the ones of [counterName], which must be defined: [counterName]
+// itself, then the style it extends, and so on.
+//
+// See https://www.w3.org/TR/css-counter-styles-3/#extends-system :
+// a style extending an unknown style, or participating in a cycle of
+// "extends", is treated as if it was extending decimal.
+func (c CounterStyle) extendsChain(counterName string) []string {
+	chain := []string{counterName}
+	for {
+		system := c[chain[len(chain)-1]].System
+		if system.Extends == "" {
+			return chain
+		}
+		name := system.System
+		seenAt := -1
+		for i, seen := range chain {
+			if seen == name {
+				seenAt = i
+				break
+			}
+		}
+		if _, has := c[name]; has && seenAt == -1 {
+			chain = append(chain, name)
+			continue
+		}
+
+		if seenAt != -1 {
+			// chain[seenAt:] is a cycle: chain[seenAt] extends decimal
+			chain = chain[:seenAt+1]
+		}
+		for _, seen := range chain {
+			if seen == "decimal" {
+				return chain
+			}
+		}
+		if decimal, has := c["decimal"]; has && decimal.System.Extends == "" {
+			chain = append(chain, "decimal")
+		}
+		// else: could happen if the UA stylesheet is not used
+		return chain
+	}
+}
+
 // may return nil
 func (c CounterStyle) resolveCounter(counterName string, previousTypes utils.Set) *CounterStyleDescriptors {
 	counter, has := c[counterName]
@@ -32,30 +76,11 @@ func (c CounterStyle) resolveCounter(counterName string, previousTypes utils.Set
 	}
 	previousTypes.Add(counterName)
 
-	extends, system := "", "symbolic"
-	if counter.System != (CounterStyleSystem{}) {
-		extends, system = counter.System.Extends, counter.System.System
-	}
-
 	// Handle extends
-	for extends != "" {
-		if extendedCounter, has := c[system]; has {
-			counter.System = extendedCounter.System
-			previousTypes.Add(system)
-
-			extends, system = "", "symbolic"
-			if counter.System != (CounterStyleSystem{}) {
-				extends, system = counter.System.Extends, counter.System.System
-			}
-
-			if extends != "" && previousTypes.Has(system) {
-				extends, system = "extends", "decimal"
-				continue
-			}
-			counter.merge(extendedCounter)
-		} else {
-			return &counter
-		}
+	for _, name := range c.extendsChain(counterName)[1:] {
+		extendedCounter := c[name]
+		counter.System = extendedCounter.System
+		counter.merge(extendedCounter)
 	}
 
 	return &counter
@@ -118,27 +143,12 @@ func (c CounterStyle) renderValue(counterValue int, counter *CounterStyleDescrip
 	// Avoid circular fallbacks
 	if previousTypes == nil {
 		previousTypes = utils.NewSet()
-	} else if previousTypes.Has(system) {
-		return c.RenderValue(counterValue, "decimal")
 	}
 
-	// Handle extends
-	for extends != "" {
-		if extendedCounter, has := c[system]; has {
-			counter.System = extendedCounter.System
-
-			extends, system, fixedNumber = "", "symbolic", -1
-			if counter.System != (CounterStyleSystem{}) {
-				extends, system, fixedNumber = counter.System.Extends, counter.System.System, counter.System.Number
-			}
-			if previousTypes.Has(system) {
-				return c.RenderValue(counterValue, "decimal")
-			}
-			previousTypes.Add(system)
-			counter.merge(extendedCounter)
-		} else {
-			return c.RenderValue(counterValue, "decimal")
-		}
+	if extends != "" {
+		// The extended style has not been resolved: there is no usable decimal style.
+		// Could happen if the UA stylesheet is not used
+		return ""
 	}
 
 	// Step 2
